@@ -165,10 +165,14 @@ type Sim struct {
 	MaxEmits int // emitted-datagram budget of one run (storm detector)
 	emits    int
 	overrun  bool
-	abort    *atomic.Bool // set by the real-time watchdog when the run takes too long
-	opsLive  atomic.Int64
-	stepCtr  *atomic.Int64 // watchdog progress counter (process-global)
-	failed   []string
+	// wallAbort: the overrun was the real-time guard, which depends on machine load and is
+	// therefore never a verdict (an endless loop that makes no controller step is caught by
+	// the watchdogs and confirmed by replay instead)
+	wallAbort bool
+	abort     *atomic.Bool // set by the real-time watchdog when the run takes too long
+	opsLive   atomic.Int64
+	stepCtr   *atomic.Int64 // watchdog progress counter (process-global)
+	failed    []string
 }
 
 // NewSim must be called inside the bubble.
@@ -427,6 +431,7 @@ func (s *Sim) run(done func() bool, horizon time.Duration, stopOnFail bool) bool
 		}
 		if s.abort != nil && s.abort.Load() && !s.overrun {
 			s.overrun = true
+			s.wallAbort = true
 			s.mu.Lock()
 			s.failed = append(s.failed, fmt.Sprintf("run exceeded its wall-clock budget after %d controller steps at virtual t=%v: livelock, storm or super-linear slowdown", s.Steps, s.Now()))
 			s.mu.Unlock()
@@ -507,6 +512,9 @@ func (s *Sim) Settle() {
 
 // Overrun reports whether the step budget was exhausted.
 func (s *Sim) Overrun() bool { return s.overrun }
+
+// WallAborted reports whether the run was cut short by the real-time guard.
+func (s *Sim) WallAborted() bool { return s.wallAbort }
 
 // OpsLive reports the number of harness goroutines still running.
 func (s *Sim) OpsLive() int64 { return s.opsLive.Load() }
